@@ -3,6 +3,7 @@ module verifharness
 go 1.22
 
 require (
+	github.com/anishathalye/porcupine v1.3.0
 	github.com/beevik/etree v1.5.0
 	github.com/crewjam/saml v0.0.0
 	github.com/golang-jwt/jwt/v4 v4.5.2
